@@ -1,4 +1,5 @@
 import Vgi.Model.Values
+import Vgi.Drive.ValuesIO
 /-!
 Line protocol for C08 (one struct type + one value per line):
 
@@ -18,311 +19,10 @@ Cell tokens follow the derived Arrow type: N | i:<int> | g:/f:<bits> | b:0|1 | s
 l:<n> c*n | m:<n> (k c)*n | r c*children.
 -/
 namespace Vgi.Drive.C08
-open Vgi Vgi.Values
+open Vgi Vgi.Values Vgi.Drive.ValuesIO
 
-def bstrOfBytes (bs : Bytes) : BStr := bs.map fun b => Char.ofNat b.toNat
-def hexOfBStr (x : BStr) : String := hexOfBytes (x.map fun c => UInt8.ofNat c.toNat)
-
-def parseBStr (tok : String) : Option BStr := (parseHexArg tok).map bstrOfBytes
-def parseHexBody (body : String) : Option BStr := parseBStr ("x" ++ body)
-
-def hexNat (cs : List Char) : Option Nat :=
-  cs.foldl (fun acc c => match acc, hexVal c with
-    | some a, some d => some (a * 16 + d)
-    | _, _ => none) (some 0)
-
-/-! ### parsers (glue only: no theorem mentions them) -/
-
-def primOf (tok : String) : Option GoTy :=
-  match tok with
-  | "i8" => some (.prim (.int ⟨true, 8⟩))
-  | "i16" => some (.prim (.int ⟨true, 16⟩))
-  | "i32" => some (.prim (.int ⟨true, 32⟩))
-  | "i64" => some (.prim (.int ⟨true, 64⟩))
-  | "int" => some (.prim (.int ⟨true, 64⟩))
-  | "u8" => some (.prim (.int ⟨false, 8⟩))
-  | "u16" => some (.prim (.int ⟨false, 16⟩))
-  | "u32" => some (.prim (.int ⟨false, 32⟩))
-  | "u64" => some (.prim (.int ⟨false, 64⟩))
-  | "uint" => some (.prim (.int ⟨false, 64⟩))
-  | "f32" => some (.prim .f32)
-  | "f64" => some (.prim .f64)
-  | "bool" => some (.prim .bool)
-  | "str" => some (.prim .str)
-  | "time" => some (.prim .time)
-  | "dur" => some (.prim .dur)
-  | "bytes" => some .bytes
-  | _ => none
-
-mutual
-partial def parseTy : List String → Option (GoTy × List String)
-  | "ptr" :: r => match parseTy r with
-    | some (t, r) => some (.ptr t, r)
-    | none => none
-  | "sl" :: r => match parseTy r with
-    | some (.prim (.int ⟨false, 8⟩), _) => none       -- []uint8 is []byte: written `bytes`
-    | some (t, r) => some (.slice t, r)
-    | none => none
-  | "map" :: r => match parseTy r with
-    | some (k, r) => match parseTy r with
-      | some (v, r) => some (.map k v, r)
-      | none => none
-    | none => none
-  | "st" :: n :: r => match n.toNat? with
-    | some k => match parseFields k r with
-      | some (fs, r) => some (.struct fs, r)
-      | none => none
-    | none => none
-  | tok :: r => match primOf tok with
-    | some t => some (t, r)
-    | none => none
-  | [] => none
-partial def parseFields : Nat → List String → Option (GoFields × List String)
-  | 0, r => some (.nil, r)
-  | k + 1, tag :: atag :: r => match parseBStr tag, parseBStr atag, parseTy r with
-    | some tg, some atg, some (t, r) => match parseFields k r with
-      | some (fs, r) => some (.cons tg atg t fs, r)
-      | none => none
-    | _, _, _ => none
-  | _, _ => none
-end
-
-def splitColon (x : String) : List String := x.splitOn ":"
-
-mutual
-partial def parseVal : GoTy → List String → Option (Val × List String)
-  | .ptr _, "nil" :: r => some (.nil, r)
-  | .ptr t, r => parseVal t r
-  | .slice _, "nil" :: r => some (.slice true .nil, r)
-  | .slice t, tok :: r => match splitColon tok with
-    | ["l", n] => match n.toNat? with
-      | some k => match parseVals t k r with
-        | some (vs, r) => some (.slice false vs, r)
-        | none => none
-      | none => none
-    | _ => none
-  | .map _ _, "nil" :: r => some (.map true .nil, r)
-  | .map kt vt, tok :: r => match splitColon tok with
-    | ["m", n] => match n.toNat? with
-      | some k => match parseKVs kt vt k r with
-        | some (kvs, r) => some (.map false kvs, r)
-        | none => none
-      | none => none
-    | _ => none
-  | .struct fs, "r" :: r => match parseSFields fs r with
-    | some (sfs, r) => some (.struct sfs, r)
-    | none => none
-  | .bytes, "nil" :: r => some (.bytes [], r)     -- a nil []byte is written as an empty binary
-  | _, tok :: r => match splitColon tok with
-    | ["i", v] => v.toInt?.map fun x => (.int x, r)
-    | ["g", h] => (hexNat h.toList).map fun x => (.f32 x, r)
-    | ["f", h] => (hexNat h.toList).map fun x => (.f64 x, r)
-    | ["b", "0"] => some (.bool false, r)
-    | ["b", "1"] => some (.bool true, r)
-    | ["s", h] => (parseHexBody h).map fun x => (.str x, r)
-    | ["y", h] => (parseHexBody h).map fun x => (.bytes x, r)
-    | ["t", sec, ns] => match sec.toInt?, ns.toInt? with
-      | some a, some b => some (.time ⟨a, b⟩, r)
-      | _, _ => none
-    | ["d", ns] => ns.toInt?.map fun x => (.dur x, r)
-    | _ => none
-  | _, [] => none
-partial def parseVals : GoTy → Nat → List String → Option (Vals × List String)
-  | _, 0, r => some (.nil, r)
-  | t, k + 1, r => match parseVal t r with
-    | some (v, r) => match parseVals t k r with
-      | some (vs, r) => some (.cons v vs, r)
-      | none => none
-    | none => none
-partial def parseKVs : GoTy → GoTy → Nat → List String → Option (KVs × List String)
-  | _, _, 0, r => some (.nil, r)
-  | kt, vt, k + 1, r => match parseVal kt r with
-    | some (kv, r) => match parseVal vt r with
-      | some (vv, r) => match parseKVs kt vt k r with
-        | some (kvs, r) => some (.cons kv vv kvs, r)
-        | none => none
-      | none => none
-    | none => none
-partial def parseSFields : GoFields → List String → Option (SFields × List String)
-  | .nil, r => some (.nil, r)
-  | .cons tag atag t fs, r => match parseVal t r with
-    | some (v, r) => match parseSFields fs r with
-      | some (sfs, r) => some (.cons tag atag v sfs, r)
-      | none => none
-    | none => none
-end
-
-mutual
-/-- Wire cells, following the Arrow type of the column. -/
-partial def parseCell : ATy → List String → Option (Cell × List String)
-  | _, "N" :: r => some (.null, r)
-  | .list e, tok :: r => match splitColon tok with
-    | ["l", n] => match n.toNat? with
-      | some k => match parseCells e k r with
-        | some (cs, r) => some (.list cs, r)
-        | none => none
-      | none => none
-    | _ => none
-  | .map ka va, tok :: r => match splitColon tok with
-    | ["m", n] => match n.toNat? with
-      | some k => match parseCKVs ka va k r with
-        | some (cs, r) => some (.map cs, r)
-        | none => none
-      | none => none
-    | _ => none
-  | .struct afs, "r" :: r => match parseCFields afs r with
-    | some (cs, r) => some (.struct cs, r)
-    | none => none
-  | a, tok :: r => match a, splitColon tok with
-    | .int t, ["i", v] => v.toInt?.map fun x => (.int t x, r)
-    | .date32, ["i", v] => v.toInt?.map fun x => (.date x, r)
-    | .ts _, ["i", v] => v.toInt?.map fun x => (.ts x, r)
-    | .time64, ["i", v] => v.toInt?.map fun x => (.time x, r)
-    | .dur, ["i", v] => v.toInt?.map fun x => (.dur x, r)
-    | .dec, ["i", v] => v.toInt?.map fun x => (.dec x, r)
-    | .f32, ["g", h] => (hexNat h.toList).map fun x => (.f32 x, r)
-    | .f64, ["f", h] => (hexNat h.toList).map fun x => (.f64 x, r)
-    | .bool, ["b", "0"] => some (.bool false, r)
-    | .bool, ["b", "1"] => some (.bool true, r)
-    | .utf8, ["s", h] => (parseHexBody h).map fun x => (.str false x, r)
-    | .largeUtf8, ["s", h] => (parseHexBody h).map fun x => (.str true x, r)
-    | .dict, ["s", h] => (parseHexBody h).map fun x => (.dict x, r)
-    | .binary, ["y", h] => (parseHexBody h).map fun x => (.bin .normal x, r)
-    | .largeBinary, ["y", h] => (parseHexBody h).map fun x => (.bin .large x, r)
-    | .fixed _, ["y", h] => (parseHexBody h).map fun x => (.bin .fixed x, r)
-    | _, _ => none
-  | _, [] => none
-partial def parseCells : ATy → Nat → List String → Option (Cells × List String)
-  | _, 0, r => some (.nil, r)
-  | a, k + 1, r => match parseCell a r with
-    | some (c, r) => match parseCells a k r with
-      | some (cs, r) => some (.cons c cs, r)
-      | none => none
-    | none => none
-partial def parseCKVs : ATy → ATy → Nat → List String → Option (CKVs × List String)
-  | _, _, 0, r => some (.nil, r)
-  | ka, va, k + 1, r => match parseCell ka r with
-    | some (kc, r) => match parseCell va r with
-      | some (vc, r) => match parseCKVs ka va k r with
-        | some (cs, r) => some (.cons kc vc cs, r)
-        | none => none
-      | none => none
-    | none => none
-partial def parseCFields : AFields → List String → Option (CFields × List String)
-  | .nil, r => some (.nil, r)
-  | .cons name a _ fs, r => match parseCell a r with
-    | some (c, r) => match parseCFields fs r with
-      | some (cs, r) => some (.cons name c cs, r)
-      | none => none
-    | none => none
-end
-
-/-! ### printers -/
-
-def hexDigits (n : Nat) (width : Nat) : String :=
-  let rec go : Nat → Nat → List Char → List Char
-    | 0, _, acc => acc
-    | w + 1, n, acc => go w (n / 16) (hexDigit (n % 16) :: acc)
-  String.ofList (go width n [])
-
-def showF32 (b : Nat) : String :=
-  if b / 8388608 % 256 = 255 ∧ b % 8388608 ≠ 0 then "nan" else hexDigits b 8
-def showF64 (b : Nat) : String :=
-  if b / 4503599627370496 % 2048 = 2047 ∧ b % 4503599627370496 ≠ 0 then "nan" else hexDigits b 16
-
-def showITy (t : ITy) : String := (if t.signed then "i" else "u") ++ toString t.bits
-
-mutual
-partial def showATy : ATy → String
-  | .int t => showITy t
-  | .f32 => "f32" | .f64 => "f64" | .bool => "bool" | .utf8 => "utf8" | .largeUtf8 => "lutf8"
-  | .binary => "bin" | .largeBinary => "lbin" | .fixed w => s!"fsb{w}"
-  | .date32 => "date32" | .ts false => "ts" | .ts true => "tsutc" | .time64 => "time64"
-  | .dur => "dur" | .dec => "dec" | .dict => "dict"
-  | .list e => "list<" ++ showATy e ++ ">"
-  | .map k v => "map<" ++ showATy k ++ "," ++ showATy v ++ ">"
-  | .struct fs => "struct{" ++ showAFields fs ++ "}"
-partial def showAFields : AFields → String
-  | .nil => ""
-  | .cons n a nl r =>
-    "x" ++ hexOfBStr n ++ ":" ++ showATy a ++ ":" ++ (if nl then "1" else "0") ++
-      (match r with | .nil => "" | _ => "," ++ showAFields r)
-end
-
-mutual
-partial def showCell : Cell → String
-  | .null => "N"
-  | .int t v => showITy t ++ ":" ++ toString v
-  | .f32 b => "f32:" ++ showF32 b
-  | .f64 b => "f64:" ++ showF64 b
-  | .bool b => if b then "b:1" else "b:0"
-  | .str false x => "s:" ++ hexOfBStr x
-  | .str true x => "ls:" ++ hexOfBStr x
-  | .bin .normal b => "y:" ++ hexOfBStr b
-  | .bin .large b => "ly:" ++ hexOfBStr b
-  | .bin .fixed b => "fy:" ++ hexOfBStr b
-  | .date d => "date:" ++ toString d
-  | .ts us => "ts:" ++ toString us
-  | .time us => "time:" ++ toString us
-  | .dur us => "dur:" ++ toString us
-  | .dec n => "dec:" ++ toString n
-  | .dict x => "dict:" ++ hexOfBStr x
-  | .list cs => "[" ++ showCells cs ++ "]"
-  | .map kvs => "{" ++ showCKVs kvs ++ "}"
-  | .struct fs => "(" ++ showCFields fs ++ ")"
-partial def showCells : Cells → String
-  | .nil => ""
-  | .cons c .nil => showCell c
-  | .cons c r => showCell c ++ "," ++ showCells r
-partial def showCKVs : CKVs → String
-  | .nil => ""
-  | .cons k v .nil => showCell k ++ "=" ++ showCell v
-  | .cons k v r => showCell k ++ "=" ++ showCell v ++ "," ++ showCKVs r
-partial def showCFields : CFields → String
-  | .nil => ""
-  | .cons n c .nil => "x" ++ hexOfBStr n ++ "=" ++ showCell c
-  | .cons n c r => "x" ++ hexOfBStr n ++ "=" ++ showCell c ++ "," ++ showCFields r
-end
-
-mutual
-partial def showVal : Val → String
-  | .nil => "nil"
-  | .int v => "i:" ++ toString v
-  | .f32 b => "g:" ++ showF32 b
-  | .f64 b => "f:" ++ showF64 b
-  | .bool b => if b then "b:1" else "b:0"
-  | .str x => "s:" ++ hexOfBStr x
-  | .bytes b => "y:" ++ hexOfBStr b
-  | .time t => "t:" ++ toString t.sec ++ ":" ++ toString t.nsec
-  | .dur ns => "d:" ++ toString ns
-  | .slice _ vs => "[" ++ showVals vs ++ "]"
-  | .map _ kvs => "{" ++ showKVs kvs ++ "}"
-  | .struct fs => "(" ++ showSFields fs ++ ")"
-partial def showVals : Vals → String
-  | .nil => ""
-  | .cons v .nil => showVal v
-  | .cons v r => showVal v ++ "," ++ showVals r
-partial def showKVs : KVs → String
-  | .nil => ""
-  | .cons k v .nil => showVal k ++ "=" ++ showVal v
-  | .cons k v r => showVal k ++ "=" ++ showVal v ++ "," ++ showKVs r
-partial def showSFields : SFields → String
-  | .nil => ""
-  | .cons _ _ v .nil => showVal v
-  | .cons _ _ v r => showVal v ++ "," ++ showSFields r
-end
-
-def splitBar (ws : List String) : List String × List String :=
-  (ws.takeWhile (· ≠ "|"), (ws.dropWhile (· ≠ "|")).drop 1)
-
-def errStr : Err → String
-  | .derive => "err:derive"
-  | .encode => "err:encode"
-  | .decode => "err:decode"
-  | .unmodelled => "bad-op"
-
-def runRt (fs : GoFields) (vals : SFields) : String :=
-  match deriveFields fs 0 with
+def runRt (fs : GoFields) (d : Except Err AFields) (vals : SFields) : String :=
+  match d with
   | .error .unmodelled => "bad-op"
   | .error e => errStr e
   | .ok afs =>
@@ -349,33 +49,48 @@ def runWr (fs : GoFields) (afs : AFields) (cells : CFields) : String :=
     | .error e => b ++ " " ++ errStr e
     | .ok cells' => b ++ " wire=(" ++ showCFields cells' ++ ")"
 
-partial def step (_ : Unit) (ws : List String) : Unit × String :=
+/-- The uncached walk for a type given by its tokens (`buildStructDesc`). -/
+def buildDesc (toks : List String) : Except Err AFields :=
+  match parseTy toks with
+  | some (.struct fs, []) => deriveFields fs 0
+  | _ => .error .unmodelled
+
+/-- The memo table (`structDescCache`), keyed by the type's tokens; kept across the lines of a case. -/
+abbrev Cache := List (List String × Except Err AFields)
+
+partial def step (st : Cache) (ws : List String) : Cache × String :=
   match ws with
   | "sc" :: r => match parseTy r with
-    | some (.struct fs, []) => match deriveFields fs 0 with
-      | .ok afs => ((), "schema=" ++ showAFields afs)
-      | .error e => ((), errStr e)
-    | _ => ((), "bad-op")
+    | some (.struct _, []) =>
+      let (st', d) := describe buildDesc st r
+      match d with
+      | .ok afs => (st', "schema=" ++ showAFields afs)
+      | .error e => (st', errStr e)
+    | _ => (st, "bad-op")
   | "rt" :: r =>
     let (tt, vt) := splitBar r
     match parseTy tt with
     | some (.struct fs, []) => match parseVal (.struct fs) vt with
-      | some (.struct vals, []) => ((), runRt fs vals)
-      | _ => ((), "bad-op")
-    | _ => ((), "bad-op")
-  | "wrx" :: r => step () ("wr" :: r)
+      | some (.struct vals, []) =>
+        let (st', d) := describe buildDesc st tt
+        (st', runRt fs d vals)
+      | _ => (st, "bad-op")
+    | _ => (st, "bad-op")
+  | "wrx" :: r => step st ("wr" :: r)
   | "wr" :: r =>
     let (tt, ct) := splitBar r
     match parseTy tt with
-    | some (.struct fs, []) => match deriveFields fs 0 with
-      | .error e => ((), errStr e)
+    | some (.struct fs, []) =>
+      let (st', d) := describe buildDesc st tt
+      match d with
+      | .error e => (st', errStr e)
       | .ok afs => match parseCFields afs ct with
-        | some (cells, []) => ((), runWr fs afs cells)
-        | _ => ((), "bad-op")
-    | _ => ((), "bad-op")
-  | _ => ((), "bad-op")
+        | some (cells, []) => (st', runWr fs afs cells)
+        | _ => (st', "bad-op")
+    | _ => (st, "bad-op")
+  | _ => (st, "bad-op")
 
-def drive : IO Unit := driveLoop () step
+def drive : IO Unit := driveLoop ([] : Cache) step
 
 end Vgi.Drive.C08
 
